@@ -192,6 +192,8 @@ def generate(outpath, repo="/repo"):
         text += emit.prop_definition(tr.g, name, ins, conds, known=known) + "\n"
     from harness_compat import write_if_changed
     write_if_changed(outpath, text)
+    tr.props = out.props
+    tr.meta = out.meta
     return tr, out.defs
 
 
